@@ -56,7 +56,7 @@ EXPECTED_PROBES = {
 }
 BUDGET = {
     'C06': {'quick': {'n': 48, 'max_s': 150, 'chunk': 1}, 'thorough': {'n': 1600, 'max_s': 3000, 'chunk': 1}},
-    'C05': {'quick': {'n': 1600, 'max_s': 150, 'chunk': 10}, 'thorough': {'n': 120000, 'max_s': 3000, 'chunk': 25}},
+    'C05': {'quick': {'n': 6400, 'max_s': 150, 'chunk': 20}, 'thorough': {'n': 120000, 'max_s': 3000, 'chunk': 25}},
 }
 DOCUMENTED_STOPS = ('nswp', 'm', 'e', 'e_vld', 'cb', 'func', 'conv')
 
@@ -155,8 +155,8 @@ def generate(rng, prop, tier):
     crashes = []
     for _ in range(ncrash):
         kind = rng.choice(['none_at', 'm', 'cb_at'])
-        crashes.append({'kind': kind, 'q': round(rng.random(), 4),
-                        'fresh_y0': rng.random() < 0.2, 'y0seed': rng.randrange(1 << 30)})
+        crashes.append({'kind': kind, 'q': round(rng.random(), 4), 'early': rng.random() < 0.6,
+                        'fresh_y0': rng.random() < 0.35, 'y0seed': rng.randrange(1 << 30)})
     return {'engine': NAME, 'mode': 'incarnations', 'cfg': cfg, 'expect': mode,
             'cache0': rng.choice(['empty', 'empty', 'pre', 'foreign']),
             'pre': {'frac': rng.choice([0.2, 0.6, 1.0]), 'extra': rng.randint(0, 6), 'seed': rng.randrange(1 << 30)},
@@ -758,10 +758,24 @@ def execute_incarnations(scen):
         plan = {}
         if cr is not None:
             q = cr['q']
+            # place the crash where this incarnation (given the surviving cache) really is at work
+            C = set(cache)
+            sizes, first_sweep_calls = [], None
+            for ev in twin_trace(cur_twin):
+                if ev[0] == 'batch':
+                    new = [i for i in ev[1] if i not in C]
+                    if new:
+                        sizes.append(len(new))
+                        C.update(new)
+                elif first_sweep_calls is None:
+                    first_sweep_calls = len(sizes)
+            ncall = len(sizes)
+            if cr.get('early') and first_sweep_calls:
+                ncall = first_sweep_calls
             if cr['kind'] == 'none_at':
-                plan['none_at'] = 1 + int(q * max(1, cur_twin.f.calls))
+                plan['none_at'] = 1 + int(q * max(1, ncall))
             elif cr['kind'] == 'm':
-                plan['m'] = 1 + int(q * max(1, cur_twin.f.rows))
+                plan['m'] = 1 + int(q * max(1, sum(sizes[:ncall])))
             else:
                 plan['cb_at'] = 1 + int(q * max(1, len(cur_twin.mon.snaps)))
         before = dict(cache)
@@ -829,13 +843,6 @@ def execute_incarnations(scen):
             if stop != 'conv' and cr is None and t.info.get('stop') in ('nswp', 'e', 'e_vld') and nsw != len(t.mon.snaps):
                 V.append(viol(prop, 'transparency-nswp', '%s: cached run stopped (%s) after %d sweeps, uncached twin (%s) after %d'
                               % (tag, stop, nsw, t.info.get('stop'), len(t.mon.snaps))))
-            # per-sweep prefix equality
-            for s in range(min(nsw, len(t.mon.snaps))):
-                if not tt_equal_bits(o.mon.snaps[s]['Y'], t.mon.snaps[s]['Y']):
-                    err = rel_err(tt_full(o.mon.snaps[s]['Y']), tt_full(t.mon.snaps[s]['Y']))
-                    if err > 1e-9:
-                        V.append(viol(prop, 'transparency-cores', '%s: tensor at sweep %d differs from the uncached twin: rel. diff %.3e' % (tag, s + 1, err)))
-                        break
             # evaluation count never grows; requests are conserved
             tot = 0
             for ev in twin_trace(t):
@@ -855,6 +862,13 @@ def execute_incarnations(scen):
                     P('restart_all_from_cache_conv')
             if o.info.get('m_cache', 0) > 0 and o.info.get('m', 0) > 0:
                 nontrivial += 1
+        # per-sweep prefix equality (also for runs interrupted inside a sweep)
+        for s_ in range(min(nsw, len(t.mon.snaps))):
+            if not tt_equal_bits(o.mon.snaps[s_]['Y'], t.mon.snaps[s_]['Y']):
+                err = rel_err(tt_full(o.mon.snaps[s_]['Y']), tt_full(t.mon.snaps[s_]['Y']))
+                if err > 1e-9:
+                    V.append(viol(prop, 'transparency-cores', '%s: tensor at sweep %d differs from the uncached twin: rel. diff %.3e' % (tag, s_ + 1, err)))
+                    break
         if stop in ('nswp', 'e', 'e_vld', 'conv', 'cb', 'func', 'm'):
             check_info_truth(o, world, Ypre_cur, V, tag, stats)
         h.append((cjson(plan), stop, o.info.get('m'), o.info.get('m_cache'), nsw, [G.tobytes() for G in o.Y]))
